@@ -18,7 +18,9 @@ package main
 //        sync     = ordinal of the metadata sync inside that call (every loop iteration syncs once)
 //        readKind = listing | exists-meta | get-meta | get-deletion-mark | get-no-compact-mark ; n = ordinal among the
 //                   reads of that kind in that sync ; outcome = failed | notfound | corrupt | badversion
-//   answer: sync=<failed|ok> compact=<err|ok> writes-after=<number | n/a>        | not-reached
+//   c33.multi <layout> <lister> <conc> <call> <sync> <readKind>:<n>:<outcome>,…
+//        several reads of ONE sync end badly; conc = concurrency of the fetcher and of the marker filters (1 | 4)
+//   answer: sync=failed compact=<err|ok> writes-after=<number>  |  sync=ok compact=n/a writes-after=n/a  |  not-reached
 //
 // oracle:
 //   wrote-after-failed-sync       a mutating bucket call after a metadata sync returned an error, before Compact returned
@@ -149,15 +151,22 @@ type c33Recorder struct {
 	call   int
 	syncNo int
 	counts map[string]int // readKind -> count in the current sync
-	// fault plan
-	fCall, fSync, fN int
-	fKind, fOutcome  string
-	fired            bool
-	perSync          []string // probe: counts of every finished sync
+	// fault plan: reads of sync fSync of call fCall
+	fCall, fSync int
+	faults       []c33Fault
+	fired        bool
+	perSync      []string // probe: counts of every finished sync
 }
 
 func (r *c33Recorder) add(kind, what string) {
 	r.events = append(r.events, c33Event{kind, what})
+}
+
+type c33Fault struct {
+	kind    string
+	n       int
+	outcome string
+	done    bool
 }
 
 type c33Fetcher struct {
@@ -220,10 +229,16 @@ func (r *c33Recorder) intercept(kind, name string) string {
 		return ""
 	}
 	r.counts[rk]++
-	if !r.fired && r.fKind == rk && r.call == r.fCall && r.syncNo == r.fSync && r.counts[rk] == r.fN {
-		r.fired = true
-		r.add("fault", rk+" "+r.fOutcome)
-		return r.fOutcome
+	if r.call == r.fCall && r.syncNo == r.fSync {
+		for i := range r.faults {
+			f := &r.faults[i]
+			if !f.done && f.kind == rk && r.counts[rk] == f.n {
+				f.done = true
+				r.fired = true
+				r.add("fault", rk+" "+f.outcome)
+				return f.outcome
+			}
+		}
 	}
 	return ""
 }
@@ -238,7 +253,7 @@ type c33Result struct {
 	probe       string
 }
 
-func c33Run(c *hlib.Ctx, layout, lister string, rec *c33Recorder) c33Result {
+func c33Run(c *hlib.Ctx, layout, lister string, conc int, rec *c33Recorder) c33Result {
 	c33Once.Do(c33BuildTemplates)
 	ctx := context.Background()
 	logger := log.NewNopLogger()
@@ -257,7 +272,6 @@ func c33Run(c *hlib.Ctx, layout, lister string, rec *c33Recorder) c33Result {
 		rec.mu.Unlock()
 	}
 	insBkt := objstore.WithNoopInstr(fb)
-	conc := 1
 	ignoreDel := block.NewIgnoreDeletionMarkFilter(logger, insBkt, 24*time.Hour, conc)
 	dedup := block.NewDeduplicateFilter(conc)
 	noCompact := compact.NewGatherNoCompactionMarkFilter(logger, insBkt, conc)
@@ -298,6 +312,9 @@ func c33Run(c *hlib.Ctx, layout, lister string, rec *c33Recorder) c33Result {
 		start := len(rec.events)
 		rec.mu.Unlock()
 		cerr := bc.Compact(ctx)
+		if cerr != nil && os.Getenv("VERIF_DEBUG") != "" {
+			fmt.Fprintln(os.Stderr, "compact error:", cerr)
+		}
 		rec.mu.Lock()
 		evs := append([]c33Event(nil), rec.events[start:]...)
 		rec.mu.Unlock()
@@ -355,50 +372,92 @@ func execC33(c *hlib.Ctx, tok []string) string {
 			return "bad-op"
 		}
 		rec := &c33Recorder{}
-		res := c33Run(c, tok[1], tok[2], rec)
+		res := c33Run(c, tok[1], tok[2], 1, rec)
 		if res.syncFailed || res.compactErr {
 			c.Violation("clean-run-failed", "a fault-free compaction failed")
 		}
 		return res.probe
 	}
-	if len(tok) != 8 || tok[0] != "c33.fault" {
-		return "bad-op"
+	validFault := func(kind, outcome string) bool {
+		switch kind {
+		case "listing", "exists-meta":
+			return outcome == "failed"
+		case "get-meta", "get-deletion-mark", "get-no-compact-mark":
+			return outcome == "failed" || outcome == "notfound" || outcome == "corrupt" || outcome == "badversion"
+		}
+		return false
 	}
-	call, e1 := strconv.Atoi(tok[3])
-	syncNo, e2 := strconv.Atoi(tok[4])
-	n, e3 := strconv.Atoi(tok[6])
-	if e1 != nil || e2 != nil || e3 != nil || call < 1 || call > 2 || syncNo < 1 || n < 1 ||
-		(tok[1] != "full" && tok[1] != "small") || (tok[2] != "concurrent" && tok[2] != "recursive") {
-		return "bad-op"
+	okCfg := func(layout, lister string) bool {
+		return (layout == "full" || layout == "small") && (lister == "concurrent" || lister == "recursive")
 	}
-	switch tok[5] {
-	case "listing", "exists-meta":
-		if tok[7] != "failed" {
+	var rec *c33Recorder
+	var layout, lister string
+	conc := 1
+	switch {
+	case len(tok) == 8 && tok[0] == "c33.fault":
+		call, e1 := strconv.Atoi(tok[3])
+		syncNo, e2 := strconv.Atoi(tok[4])
+		n, e3 := strconv.Atoi(tok[6])
+		if e1 != nil || e2 != nil || e3 != nil || call < 1 || call > 2 || syncNo < 1 || n < 1 || !okCfg(tok[1], tok[2]) || !validFault(tok[5], tok[7]) {
 			return "bad-op"
 		}
-	case "get-meta", "get-deletion-mark", "get-no-compact-mark":
-		if tok[7] != "failed" && tok[7] != "notfound" && tok[7] != "corrupt" && tok[7] != "badversion" {
+		layout, lister = tok[1], tok[2]
+		rec = &c33Recorder{fCall: call, fSync: syncNo, faults: []c33Fault{{kind: tok[5], n: n, outcome: tok[7]}}}
+	case len(tok) == 7 && tok[0] == "c33.multi":
+		cc, e0 := strconv.Atoi(tok[3])
+		call, e1 := strconv.Atoi(tok[4])
+		syncNo, e2 := strconv.Atoi(tok[5])
+		if e0 != nil || e1 != nil || e2 != nil || (cc != 1 && cc != 4) || call < 1 || call > 2 || syncNo < 1 || !okCfg(tok[1], tok[2]) {
 			return "bad-op"
 		}
+		layout, lister, conc = tok[1], tok[2], cc
+		rec = &c33Recorder{fCall: call, fSync: syncNo}
+		for _, t := range hlib.Split(tok[6], ",") {
+			p := strings.Split(t, ":")
+			if len(p) != 3 {
+				return "bad-op"
+			}
+			n, err := strconv.Atoi(p[1])
+			if err != nil || n < 1 || !validFault(p[0], p[2]) {
+				return "bad-op"
+			}
+			rec.faults = append(rec.faults, c33Fault{kind: p[0], n: n, outcome: p[2]})
+		}
+		if len(rec.faults) == 0 {
+			return "bad-op"
+		}
+		c.Count(fmt.Sprintf("multi:faults=%d,conc=%d", len(rec.faults), conc))
 	default:
 		return "bad-op"
 	}
-	rec := &c33Recorder{fCall: call, fSync: syncNo, fKind: tok[5], fN: n, fOutcome: tok[7]}
-	res := c33Run(c, tok[1], tok[2], rec)
+	res := c33Run(c, layout, lister, conc, rec)
 	if strings.HasPrefix(res.probe, "clean-call-failed") {
 		return res.probe
 	}
 	if !res.fired {
 		return "not-reached"
 	}
-	c.Count("fault:" + tok[5] + ":" + tok[7])
-	c.Count(fmt.Sprintf("fault:call%d-sync%d", call, syncNo))
+	for _, f := range rec.faults {
+		if f.done {
+			c.Count("fault:" + f.kind + ":" + f.outcome)
+		}
+	}
+	c.Count(fmt.Sprintf("fault:call%d-sync%d", rec.fCall, rec.fSync))
 	s, k, w := "ok", "ok", "n/a"
 	if res.syncFailed {
 		s, w = "failed", strconv.Itoa(res.writesAfter)
 	}
 	if res.compactErr {
 		k = "err"
+	}
+	if !res.syncFailed {
+		// The sync succeeded on a view in which the faulted block counts as a partial upload / unmarked.  What
+		// the compactor then does is outside C33 (e.g. a block hidden by a corrupt meta.json read reappears in
+		// the next sync and overlaps the block compacted around it: "pre compaction overlap check" error) — recorded.
+		if res.compactErr {
+			c.Count("tolerated-fault-then-compact-error")
+		}
+		k = "n/a"
 	}
 	return fmt.Sprintf("sync=%s compact=%s writes-after=%s", s, k, w)
 }
@@ -460,6 +519,73 @@ func genC33(c *hlib.Ctx) {
 					}
 					for _, o := range outcomes {
 						c.Do(fmt.Sprintf("c33.fault %s %s %d %d %s %d %s", cf.layout, cf.lister, s.call, s.sync, k, n, o), true)
+					}
+				}
+			}
+		}
+		// several faults in one sync, and fetcher / filter concurrency 4
+		if cf.layout != "full" {
+			continue
+		}
+		allOutcomes := []string{"failed", "notfound", "corrupt", "badversion"}
+		tolerated := []string{"notfound", "corrupt"}
+		for _, s := range syncs {
+			rounds := c.N(1, 8)
+			if c.Tier == "quick" && cf.lister != "concurrent" {
+				rounds = 0
+			}
+			for round := 0; round < rounds; round++ {
+				nf := c.R.Range(2, 3)
+				mode := c.R.Intn(3) // 0: all tolerated, 1: mixed, 2: any
+				var fs []string
+				used := map[string]bool{}
+				for len(fs) < nf {
+					k := kinds[c.R.Intn(len(kinds))]
+					// later reads of the sync shrink when earlier faults turn blocks into partial ones: stay below
+					limit := s.counts[k] - nf
+					if k == "listing" || k == "exists-meta" || k == "get-meta" {
+						limit = s.counts[k]
+					}
+					if limit < 1 {
+						if len(used) > 20 {
+							break
+						}
+						used[fmt.Sprint(len(used))] = true
+						continue
+					}
+					n := c.R.Range(1, limit)
+					key := fmt.Sprintf("%s:%d", k, n)
+					if used[key] {
+						continue
+					}
+					used[key] = true
+					o := "failed"
+					if k != "listing" && k != "exists-meta" {
+						switch mode {
+						case 0:
+							o = tolerated[c.R.Intn(2)]
+						default:
+							o = allOutcomes[c.R.Intn(4)]
+						}
+					} else if mode == 0 {
+						continue
+					}
+					fs = append(fs, key+":"+o)
+				}
+				if len(fs) == 0 {
+					continue
+				}
+				conc := []int{1, 4}[c.R.Intn(2)]
+				if c.Tier == "quick" {
+					conc = 4
+				}
+				c.Do(fmt.Sprintf("c33.multi %s %s %d %d %d %s", cf.layout, cf.lister, conc, s.call, s.sync, strings.Join(fs, ",")), true)
+			}
+			// single faults at concurrency 4: first read of each kind fails
+			if c.Tier != "quick" {
+				for _, k := range kinds {
+					if s.counts[k] >= 1 {
+						c.Do(fmt.Sprintf("c33.multi %s %s 4 %d %d %s:%d:failed", cf.layout, cf.lister, s.call, s.sync, k, c.R.Range(1, s.counts[k])), true)
 					}
 				}
 			}
